@@ -123,6 +123,24 @@ def run(ctx):
         ctx.model_check("MC_KeysetManager", "MC_KeysetManager", stage="M:one manager, ID=1..3, <=3 entries, <=2 handles, ext<=2")
     ctx.model_check("MC_KeysetManager", "MC_KeysetManager_quick", stage="M:one manager, ID=1..3, <=3 entries, <=1 handle, ext<=1")
     ctx.model_check("MC_KeysetManager", "MC_KeysetManager_two", stage="M:two managers (isolation), ID=1..2, <=2 entries")
+    if ctx.thorough and not ctx.replay:
+        # beyond the bound: KeysetManager refines the set-based abstraction (TLC), whose invariant TLAPS proves
+        # for an arbitrary id set and unbounded keysets
+        ctx.model_check("MC_KeysetManagerRefine", stage="M:refinement of KeysetManagerAbs (ID=1..3, <=3 entries)", workers=16,
+                        timeout=3600)
+        import shutil, subprocess, re
+        d = os.path.join(ctx.scratch, "tlaps")
+        os.makedirs(d)
+        shutil.copy(os.path.join(os.path.dirname(os.path.dirname(os.path.abspath(__file__))), "spec", "proofs", "KeysetManagerAbs.tla"), d)
+        try:
+            r = subprocess.run(["tlapm", "--threads", "8", "--cleanfp", "KeysetManagerAbs.tla"], cwd=d, capture_output=True, text=True, timeout=1200)
+        except subprocess.TimeoutExpired:
+            ctx.infra("tlapm timeout")
+        m = re.search(r"All (\d+) obligations proved", r.stdout + r.stderr)
+        if not m:
+            ctx.infra("TLAPS proof of KeysetManagerAbs failed: " + (r.stdout + r.stderr)[-1500:])
+        ctx.stage("P:TLAPS KeysetManagerAbs (arbitrary ID, unbounded)", obligations=int(m.group(1)), discharged=int(m.group(1)))
+        ctx.log("TLAPS: all %s obligations proved" % m.group(1))
     drv = ctx.go_build("c11")
     if ctx.replay:
         obj = json.load(open(ctx.replay))
